@@ -19,6 +19,16 @@ def _c20_case(c):
 
 
 
+LINK = {
+    "name": "C20link",
+    "proof_files": [],
+    "model_files": ["Generated/GC20.v", "Model/Reference.v", "Model/RefOps.v"],
+    "extract": "XC20.v",
+    "ml_main": "c20_main.ml",
+    "harness": "c20link",
+    "case_to_replay": _c20_case,
+}
+
 CONFIG = {
     "properties_file": "Properties/C20.v",
     "proof_files": ["Base/Prelude.v", "Base/Regex.v", "Proofs/Reference.v", "Proofs/RefOps.v", "Proofs/RefURL.v"],
@@ -27,6 +37,7 @@ CONFIG = {
     "ml_main": "c20_main.ml",
     "harness": "c20",
     "case_to_replay": _c20_case,
+    "parts": [LINK],
     "assumptions": [
         "registry validity is url.ParseRequestURI (net/url): a parameter of the theorems; the correspondence judges only authorities a conservative recogniser decides",
         "go-digest v1.0.0 Digest.Validate (pinned dependency) is hand-modelled (sha256/384/512, lower-case hex of the exact length)",
